@@ -219,7 +219,14 @@ func TestVerif_C20(t *testing.T) {
 		r := verifkit.Rand("C20/noise", k)
 		in := make([]byte, 1+r.Intn(300))
 		r.Read(in)
-		probe("noise", "noise", "random bytes", in)
+		// the first bytes decide which decoder gets the rest: name the finding after it
+		name := "noise"
+		if t, err := wire.ReadVarInt(bytes.NewReader(in), wire.ProtocolVersion); err == nil {
+			if n, ok := MessageTypeNames[t]; ok {
+				name = n
+			}
+		}
+		probe(name, "noise", "random bytes", in)
 		rep.Case("noise", false)
 	}
 	rep.Event("probe_children_spawned", int64(child.Spawns))
